@@ -81,7 +81,7 @@ impl Writer {
                 need,
                 block.limit
             );
-            FileStateTracker::set_block_unlocked(block.id as usize);
+            FileStateTracker::set_block_unlocked(&block.file_path, block.id as usize);
             let mut sealed = block.clone();
             sealed.used = *cur;
             sealed.mmap.flush()?;
@@ -218,6 +218,7 @@ impl Writer {
 
         let mut revert_info = BatchRevertInfo {
             original_offset: *cur_offset,
+            scope: block.file_path.clone(),
             allocated_block_ids: Vec::new(),
             sealed_blocks: Vec::new(),
         };
@@ -248,7 +249,7 @@ impl Writer {
                     need,
                     block.limit
                 );
-                FileStateTracker::set_block_unlocked(block.id as usize);
+                FileStateTracker::set_block_unlocked(&block.file_path, block.id as usize);
                 let mut sealed = block.clone();
                 sealed.used = planning_offset;
                 sealed.mmap.flush()?;
@@ -336,8 +337,8 @@ impl Writer {
                 }
 
                 *cur_offset = self.undo_sealed_blocks(&revert_info);
-                for block_id in revert_info.allocated_block_ids {
-                    FileStateTracker::set_block_unlocked(block_id as usize);
+                for block_id in revert_info.allocated_block_ids.iter() {
+                    FileStateTracker::set_block_unlocked(&revert_info.scope, *block_id as usize);
                 }
                 return Err(e);
             }
@@ -420,7 +421,7 @@ impl Writer {
                 // Rollback and fail
                 *cur_offset = self.undo_sealed_blocks(&revert_info);
                 for block_id in revert_info.allocated_block_ids.iter() {
-                    FileStateTracker::set_block_unlocked(*block_id as usize);
+                    FileStateTracker::set_block_unlocked(&revert_info.scope, *block_id as usize);
                 }
                 return Err(std::io::Error::new(
                     std::io::ErrorKind::Unsupported,
@@ -525,7 +526,7 @@ impl Writer {
                     // Rollback
                     *cur_offset = self.undo_sealed_blocks(&revert_info);
                     for block_id in revert_info.allocated_block_ids.iter() {
-                        FileStateTracker::set_block_unlocked(*block_id as usize);
+                        FileStateTracker::set_block_unlocked(&revert_info.scope, *block_id as usize);
                     }
                     return Err(std::io::Error::new(
                         std::io::ErrorKind::Other,
@@ -570,7 +571,7 @@ impl Writer {
                 // Rollback
                 *cur_offset = self.undo_sealed_blocks(&revert_info);
                 for block_id in revert_info.allocated_block_ids.iter() {
-                    FileStateTracker::set_block_unlocked(*block_id as usize);
+                    FileStateTracker::set_block_unlocked(&revert_info.scope, *block_id as usize);
                 }
                 Err(e)
             }
@@ -580,6 +581,8 @@ impl Writer {
 
 struct BatchRevertInfo {
     original_offset: u64,
+    // path of a WAL file of this instance (block ids are only unique per instance)
+    scope: String,
     allocated_block_ids: Vec<u64>,
     // (block id, bytes that were valid before the batch) for every block sealed while planning
     sealed_blocks: Vec<(u64, u64)>,
